@@ -510,6 +510,56 @@ pub fn release_scenario_strategy(cfgs: BoxedStrategy<Cfg>) -> BoxedStrategy<Hist
         .boxed()
 }
 
+/// Structured generator: many consecutive batches (10-24) with a short epoch and an unbonding period spanning
+/// several epochs, so that at any moment several batches are in flight while older ones are released; users unbond
+/// repeatedly (claims in many batches, batch ids with one and two digits) and withdraw at arbitrary points.
+pub fn many_batches_scenario_strategy(cfgs: BoxedStrategy<Cfg>) -> BoxedStrategy<History> {
+    let round = (
+        proptest::collection::vec((0u8..6, any::<bool>(), prop_oneof![Just(0u16), 0u16..4000]), 1..3),
+        prop_oneof![4 => Just(1i8), 1 => Just(2i8)],
+        proptest::option::weighted(0.4, 0u8..6),
+        proptest::option::weighted(0.08, (0u8..5, 1u16..300, any::<bool>())),
+    );
+    (
+        cfgs,
+        prop_oneof![Just(1u64), Just(5u64)],
+        prop_oneof![Just(4u64), Just(7u64), Just(12u64)],
+        proptest::collection::vec((0u8..6, any::<bool>(), amt_strategy()), 3..7),
+        proptest::collection::vec(round, 10..25),
+        proptest::collection::vec(0u8..6, 1..8),
+    )
+        .prop_map(|(mut cfg, epoch, span, bonds, rounds, final_withdrawers)| {
+            cfg.epoch = epoch;
+            cfg.unbonding = (epoch + 1) * span;
+            let mut ops = vec![];
+            for (u, st, amt) in bonds {
+                ops.push(Op::Bond { u, st, amt });
+            }
+            for (unbonds, eoff, withdraw, slash) in rounds {
+                for (u, st, frac) in unbonds {
+                    ops.push(Op::Unbond { u, st, frac });
+                }
+                ops.push(Op::Advance { clock: Clock::Epoch(eoff) });
+                if let Some(u) = withdraw {
+                    ops.push(Op::Withdraw { u });
+                }
+                if let Some((v, permille, unbonding)) = slash {
+                    ops.push(Op::Slash { v, permille, unbonding });
+                }
+            }
+            ops.push(Op::Advance { clock: Clock::Unbond(0) });
+            for u in &final_withdrawers {
+                ops.push(Op::Withdraw { u: *u });
+            }
+            ops.push(Op::Advance { clock: Clock::Long });
+            for u in &final_withdrawers {
+                ops.push(Op::Withdraw { u: *u });
+            }
+            History { cfg, ops }
+        })
+        .boxed()
+}
+
 /// Structured generator: bonds of both tokens, then reward rounds (rewards of several coins accrue on several
 /// validators, then UpdateGlobalIndex), interleaved with a few generated operations of the given profile.
 pub fn reward_scenario_strategy(p: &Profile, cfgs: BoxedStrategy<Cfg>) -> BoxedStrategy<History> {
